@@ -426,6 +426,16 @@ def replay_witness(unit_name, case, ob):
 # PatchLinkage.count_pairs (cells, diagonal factor, sum_weights1/2 columns for every arrival order), run here as well
 def _register_shared():
     from . import C01 as _C01
+    from . import C03 as _C03
+    # "computed identically for the value and every jackknife sample": the resampled pair counts and weight products that enter
+    # the estimators are the leave-one-patch-out sums (the C03 units on sample_patch_sum, run here as well)
+    unit(P, "BinwisePatchwiseArray.sample_patch_sum", fuc=["yaw.correlation.paircounts:BinwisePatchwiseArray.sample_patch_sum",
+                                                           "yaw.correlation.paircounts:PatchedCounts.get_array"],
+         cases=[dict(auto=False), dict(auto=True)], trusted=["np.einsum", "np.tile"])(_C03.u_sps)
+    unit(P, "PatchedSumWeights.get_array", fuc=["yaw.correlation.paircounts:PatchedSumWeights.get_array"],
+         cases=[dict(auto=False), dict(auto=True)])(_C03.u_sw_array)
+    unit(P, "NormalisedCounts.sample_patch_sum", fuc=["yaw.correlation.paircounts:NormalisedCounts.sample_patch_sum"],
+         cases=[dict(auto=False), dict(auto=True)])(_C03.u_norm_sps)
     unit(P, "PatchLinkage.count_pairs", fuc=["yaw.correlation.measurements:PatchLinkage.count_pairs"],
          cases=[dict(auto=a, S=1) for a in (False, True)], trusted=["iter_unordered contract", "iter_patch_id_pairs contract"], kind="bounded")(_C01.u_count_pairs)
 
